@@ -603,6 +603,129 @@ func specIncoming(c *conn) bool {
 //@   ensures[wrap]    implies(f.firewall != fw0 && ver0+1 == 0, f.firewall.Conntrack != ct0 && f.firewall.Conntrack != nil)
 
 // =====================================================================
+// C30 — tunnel teardown decisions follow the liveness policy
+// =====================================================================
+//
+// specDecision is the policy of the property statement, as a function of the
+// facts observed at the start of the check: was the tunnel found, is its
+// certificate blocklisted / invalid-with-disconnect_invalid, is its counter
+// exhausted, did it see inbound / outbound traffic, was a test probe pending,
+// is it the primary tunnel, does it have a connection state, has it been
+// idle past the configured inactivity timeout with drop_inactive on.
+// For a non-primary tunnel with inbound traffic the code may either swap it
+// to primary or migrate relays; the policy only says it is kept.
+
+//@ func specDecision
+//@   pure
+func specDecision(found, invalidCert, exhausted, inT, outT, pending, primary, hasCS, inactive bool) trafficDecision {
+	switch {
+	case !found:
+		return doNothing
+	case invalidCert:
+		return closeTunnel
+	case exhausted:
+		return deleteTunnel
+	case inT:
+		if primary {
+			return tryRehandshake
+		}
+		return migrateRelays // or swapPrimary, see ensures[alive]
+	case pending:
+		return deleteTunnel
+	case hasCS && primary && !outT && inactive:
+		return closeTunnel
+	case hasCS && primary && !outT:
+		return doNothing
+	case hasCS && primary:
+		return sendTestPacket
+	}
+	return doNothing
+}
+
+//@ func specInvalidCert
+//@   pure
+func specInvalidCert(cm *connectionManager, now time.Time, h *HostInfo) bool {
+	if h == nil || h.ConnectionState == nil || h.ConnectionState.peerCert == nil {
+		return false
+	}
+	err := cm.intf.pki.GetCAPool().VerifyCachedCertificate(now, h.ConnectionState.peerCert)
+	return err == cert.ErrBlockListed || (err != nil && cm.intf.disconnectInvalid.Load())
+}
+
+//@ func specExhausted
+//@   pure
+func specExhausted(h *HostInfo) bool {
+	return h != nil && h.ConnectionState != nil && h.ConnectionState.messageCounter.Load() >= RejectAfterMessages
+}
+
+//@ func specInactive
+//@   pure
+func specInactive(cm *connectionManager, h *HostInfo, now time.Time) bool {
+	return cm.dropInactive.Load() && now.Sub(h.lastUsed) >= time.Duration(cm.inactivityTimeout.Load())
+}
+
+//@ func (*PKI).GetCAPool
+//@   inline
+//@ func (*HostInfo).GetCert
+//@   inline
+//@ func (*connectionManager).getInactivityTimeout
+//@   inline
+//@ func github.com/slackhq/nebula/cert.(*CAPool).VerifyCachedCertificate
+//@   trusted certificate verification (C01) is abstracted here to a function of pool, time and certificate; reads only
+//@   ensures result == ncp.VerifyCachedCertificate(now, c)
+//@   assigns nothing
+//@ func (*Punchy).SendPunch
+//@   trusted sends (or schedules) hole-punch packets; no effect on tunnel liveness state
+//@   assigns nothing
+//@ func (*Punchy).SendPunchToAll
+//@   trusted sends (or schedules) hole-punch packets; no effect on tunnel liveness state
+//@   assigns nothing
+//@ func (*LockingTimerWheel).Add
+//@   trusted frame abstraction: modifies only the wheel's own lists/items/cache (timeout.go)
+//@   assigns nothing
+//@ func (*connectionManager).shouldSwapPrimary
+//@   trusted reads tunnel and certificate state only (its ordering rule is checked separately)
+//@   assigns nothing
+
+//@ func (*connectionManager).getAndResetTrafficCheck
+//@   props C30
+//@   requires h != nil
+//@   ensures[flags] result0 == old(h.in.Load()) && result1 == old(h.out.Load()) && !h.in.Load() && !h.out.Load()
+//@   ensures[used]  h.lastUsed == ite(result0 || result1, now, old(h.lastUsed))
+//@   assigns h.in, h.out, h.lastUsed
+
+//@ func (*connectionManager).isInactive
+//@   props C30
+//@   requires cm != nil && hostinfo != nil
+//@   ensures[policy] result1 == specInactive(cm, hostinfo, now)
+//@   assigns nothing
+
+//@ func (*connectionManager).isInvalidCertificate
+//@   props C30
+//@   requires cm != nil && hostinfo != nil && cm.intf != nil && cm.intf.pki != nil && cm.l != nil
+//@   ensures[policy] result == specInvalidCert(cm, now, hostinfo)
+//@   assigns nothing
+
+//@ func (*connectionManager).makeTrafficDecision
+//@   props C30
+//@   requires cm != nil && cm.hostMap != nil && cm.hostMap.Indexes != nil && cm.hostMap.Hosts != nil && cm.intf != nil && cm.intf.pki != nil && cm.l != nil && cm.punchy != nil && cm.trafficTimer != nil
+//@   requires[wf] implies(cm.hostMap.Indexes[localIndex] != nil, len(cm.hostMap.Indexes[localIndex].vpnAddrs) >= 1)
+//@   old hi = cm.hostMap.Indexes[localIndex]
+//@   old invalid = specInvalidCert(cm, now, cm.hostMap.Indexes[localIndex])
+//@   old exhausted = specExhausted(cm.hostMap.Indexes[localIndex])
+//@   old inT = cm.hostMap.Indexes[localIndex].in.Load()
+//@   old outT = cm.hostMap.Indexes[localIndex].out.Load()
+//@   old pend = cm.hostMap.Indexes[localIndex].pendingDeletion.Load()
+//@   old prim = cm.hostMap.Hosts[cm.hostMap.Indexes[localIndex].vpnAddrs[0]]
+//@   old hasCS = cm.hostMap.Indexes[localIndex].ConnectionState != nil
+//@   old inactive = specInactive(cm, cm.hostMap.Indexes[localIndex], now)
+//@   ensures[policy]   implies(!(hi != nil && !invalid && !exhausted && inT && !(prim == nil || prim == hi)), result0 == specDecision(hi != nil, invalid, exhausted, inT, outT, pend, prim == nil || prim == hi, hasCS, inactive))
+//@   ensures[alive]    implies(hi != nil && !invalid && !exhausted && inT, result0 == tryRehandshake || result0 == swapPrimary || result0 == migrateRelays)
+//@   ensures[subject]  implies(result0 == closeTunnel || result0 == deleteTunnel || result0 == sendTestPacket || result0 == tryRehandshake || result0 == swapPrimary || result0 == migrateRelays, result1 == hi && hi != nil)
+//@   ensures[rearmed]  implies(hi != nil && !invalid && !exhausted && inT, !hi.pendingDeletion.Load())
+//@   ensures[probing]  implies(result0 == sendTestPacket, hi.pendingDeletion.Load())
+
+// =====================================================================
 // C33 — timer wheel slot arithmetic
 // =====================================================================
 //
